@@ -27,11 +27,16 @@ if DEPS not in sys.path:
 
 
 def _assert_tree():
-    import neuroglancer_scripts
+    try:
+        import neuroglancer_scripts
+    except BaseException as exc:  # noqa: BLE001
+        print(f"INCONCLUSIVE the tree under test cannot be imported: {exc!r}")
+        sys.exit(2)
     want = os.path.realpath(os.path.join(REPO, "src"))
     got = os.path.realpath(neuroglancer_scripts.__file__)
     if not got.startswith(want + os.sep):
-        raise SystemExit(f"INCONCLUSIVE wrong tree under test: {got} not below {want}")
+        print(f"INCONCLUSIVE wrong tree under test: {got} not below {want}")
+        sys.exit(2)
 
 
 def quiet():
